@@ -213,23 +213,55 @@ func superCallInStaticInit(p *jsref.Program) bool {
 	return found
 }
 
-// Repair: `__superGet(C, R, k).call(this, …)` (tagged template: `.bind(this)`) where the receiver argument
+// Repair: `__superGet(C, R, k).call(this, …)` (tagged template: `.bind(this)`; optional call: through a
+// temporary, `(_a = __superGet(C, R, k)) == null ? void 0 : _a.call(this, …)`) where the receiver argument
 // R is an identifier (a static initialiser moved out of its class: R is the class) becomes `.call(R, …)`.
 func repairSuperCallReceiver(out string, po *jsref.Program) (string, int) {
 	var edits []edit
+	// temporaries that hold a lowered super property of a static initialiser (optional call:
+	// `(_a = __superGet(C, R, k)) == null ? void 0 : _a.call(this, …)`): name → assignments
+	type tempAssign struct {
+		at   int
+		recv string
+	}
+	temps := map[string][]tempAssign{}
+	superGetRecv := func(n *jsref.Node) string {
+		if n == nil || n.Type != jsref.NCall || n.A == nil || n.A.Type != jsref.NIdent || n.A.Name != "__superGet" || len(n.List) != 3 {
+			return ""
+		}
+		if r := n.List[1]; r != nil && r.Type == jsref.NIdent {
+			return r.Name
+		}
+		return ""
+	}
+	jsutil.Walk(po.Body, func(n *jsref.Node) {
+		if n.Type == jsref.NAssign && n.Name == "=" && n.A != nil && n.A.Type == jsref.NIdent {
+			if r := superGetRecv(n.B); r != "" {
+				temps[n.A.Name] = append(temps[n.A.Name], tempAssign{n.Start, r})
+			}
+		}
+	})
 	jsutil.Walk(po.Body, func(n *jsref.Node) {
 		if n.Type != jsref.NCall || n.A == nil || n.A.Type != jsref.NMember || (n.A.Name != "call" && n.A.Name != "bind") || len(n.List) == 0 {
 			return
 		}
-		inner := n.A.A
-		if inner == nil || inner.Type != jsref.NCall || inner.A == nil || inner.A.Type != jsref.NIdent || inner.A.Name != "__superGet" || len(inner.List) != 3 {
+		first := n.List[0]
+		if first == nil || first.Type != jsref.NThis {
 			return
 		}
-		recv, first := inner.List[1], n.List[0]
-		if recv == nil || first == nil || first.Type != jsref.NThis || recv.Type != jsref.NIdent {
+		recv := superGetRecv(n.A.A)
+		if recv == "" && n.A.A != nil && n.A.A.Type == jsref.NIdent {
+			best := -1
+			for _, ta := range temps[n.A.A.Name] {
+				if ta.at < n.Start && ta.at > best {
+					best, recv = ta.at, ta.recv
+				}
+			}
+		}
+		if recv == "" {
 			return
 		}
-		edits = append(edits, edit{at: first.Start, del: first.End - first.Start, ins: recv.Name})
+		edits = append(edits, edit{at: first.Start, del: first.End - first.Start, ins: recv})
 	})
 	if len(edits) == 0 {
 		return out, 0
